@@ -44,6 +44,7 @@ No edit tried was missed. (1-5, 8, 9 through ./check; the others through the sam
 import itertools
 
 import numpy as np
+import pandas as pd
 
 from .. import speclib as S
 from ..report import fingerprint
@@ -249,8 +250,38 @@ def _check_mf(case):
     return (nontrivial, fp, None)
 
 
+def _check_label_dtype(case):
+    """the label container dtype must not matter: gamma / bound / signed weights with labels stored as uint8, int8, bool or float equal those with plain int labels"""
+    import fairlearn.reductions as R
+    mom, dtype, seed = case
+    rng = np.random.default_rng(seed)
+    n = int(rng.integers(4, 10))
+    y = rng.integers(0, 2, n); y[:2] = (0, 1)
+    sf = rng.integers(0, 2, n); sf[:4] = (0, 0, 1, 1); y[2:4] = (0, 1)
+    X = np.zeros((n, 1))
+    h = rng.integers(0, 2, n).astype(float)
+    fp = fingerprint(case)
+    out = []
+    for lab in (y.astype(int), y.astype(dtype)):
+        m = getattr(R, mom)()
+        m.load_data(X, lab, sensitive_features=sf)
+        lam = pd.Series(np.linspace(0.1, 1.0, len(m.index)), index=m.index)
+        out.append((m.gamma(lambda X_: h).to_numpy(dtype=float), np.asarray(m.signed_weights(lam), dtype=float)))
+    if not (np.allclose(out[0][0], out[1][0], atol=1e-12) and np.allclose(out[0][1], out[1][1], atol=1e-12)):
+        return (True, fp, (f"C06:{mom}:label-dtype", f"{mom} with labels {y.tolist()} stored as {np.dtype(dtype).name}: gamma {out[1][0].round(4).tolist()} / signed weights differ from the values "
+                           f"with int labels {out[0][0].round(4).tolist()} (groups {sf.tolist()}, predictions {h.tolist()})",
+                           {"moment": mom, "label_dtype": np.dtype(dtype).name, "y": y.tolist(), "sensitive_features": sf.tolist(), "h": h.tolist(),
+                            "gamma": out[1][0].tolist(), "gamma_int_labels": out[0][0].tolist()}))
+    return (True, fp, None)
+
+
 def run_bounded(rep):
     rep.assume("A1", "A2")
+    import itertools
+    dcases = [(mom, dt, rep.seed * 977 + i) for i, (mom, dt) in enumerate(itertools.product(("DemographicParity", "TruePositiveRateParity", "FalsePositiveRateParity", "EqualizedOdds", "ErrorRateParity"),
+                                                                                          (np.uint8, np.int8, np.uint16, np.float32, np.float64, bool))) for _ in range(2 if rep.tier == "quick" else 10)]
+    run_cases(rep, "label_dtypes", rule="5 parity moments x labels stored as uint8/int8/uint16/float32/float64/bool: gamma and signed weights equal those with int labels (seeded small datasets)",
+              bound="n <= 9", cases=dcases, check_case=_check_label_dtype, exhaustive=False)
     quick = rep.tier == "quick"
     nmax, hard_upto, n_rand = (5, 4, 400) if quick else (6, 5, 4000)
     structs = []
